@@ -53,6 +53,16 @@ SK = {
     'cte-three-select-middle': ("WITH c1 AS (SELECT a FROM {A}.tbl1), c2 AS (SELECT b FROM {B}.tbl2), c3 AS (SELECT a FROM {A}.tbl3) SELECT * FROM c2",
                                 {'int1': {'tbl1', 'tbl3'}, 'int2': {'tbl2'}}, [], {'int2': {'tbl2'}}),
     'cte-two-join-both': ("WITH c1 AS (SELECT a, id FROM {A}.tbl1), c2 AS (SELECT b, id FROM {B}.tbl2) SELECT * FROM c2 JOIN c1 ON c1.id = c2.id", {'int1': {'tbl1'}, 'int2': {'tbl2'}}, []),
+    # the default namespace is a data integration (5th element = catalog arguments): unqualified names are its tables, also when a model of
+    # the predictor namespace has the same name; models are reached by their qualified name only
+    'default-int1-bare-table': ("SELECT * FROM {B}.tbl2 AS o JOIN tbl1 AS s ON o.id = s.id", {'int2': {'tbl2'}, 'int1': {'tbl1'}}, [], None, {'default_namespace': 'int1'}),
+    'default-int1-bare-table-named-like-model': ("SELECT * FROM {B}.tbl2 AS o JOIN pred AS s ON o.id = s.id", {'int2': {'tbl2'}, 'int1': {'pred'}}, [], None, {'default_namespace': 'int1'}),
+    'default-int1-bare-table-named-like-model-first': ("SELECT * FROM pred AS s LEFT JOIN {B}.tbl2 AS o ON o.id = s.id WHERE s.a > 1", {'int2': {'tbl2'}, 'int1': {'pred'}}, [], None, {'default_namespace': 'int1'}),
+    'default-int1-qualified-like-model': ("SELECT * FROM {B}.tbl2 AS o JOIN {A}.pred AS s ON o.id = s.id", {'int2': {'tbl2'}, 'int1': {'pred'}}, [], None, {'default_namespace': 'int1'}),
+    'default-int1-model-qualified': ("SELECT * FROM tbl1 AS t JOIN {M}.pred AS m", {'int1': {'tbl1'}}, [('mindsdb', ['pred'])], None, {'default_namespace': 'int1'}),
+    'default-int1-table-like-model-and-model': ("SELECT * FROM pred AS t JOIN {M}.pred AS m", {'int1': {'pred'}}, [('mindsdb', ['pred'])], None, {'default_namespace': 'int1'}),
+    'default-int1-subquery-like-model': ("SELECT a FROM {B}.tbl2 WHERE a IN (SELECT b FROM pred2)", {'int2': {'tbl2'}, 'int1': {'pred2'}}, [], None, {'default_namespace': 'int1'}),
+    'default-int2-cte-like-model': ("WITH c AS (SELECT b, id FROM pred) SELECT * FROM c JOIN {A}.tbl1 AS t ON c.id = t.id", {'int1': {'tbl1'}, 'int2': {'pred'}}, [], None, {'default_namespace': 'int2'}),
     'two-models': ("SELECT * FROM {A}.tbl1 AS t JOIN {M}.pred AS m JOIN {P}.pred2 AS m2", {'int1': {'tbl1'}}, [('mindsdb', ['pred']), ('proj', ['pred2'])]),
     'select-from-model': ("SELECT p FROM {M}.pred WHERE x = 1", {}, [('mindsdb', ['pred'])]),
     'ts-model-join': ("SELECT * FROM {A}.tbl1 AS t JOIN {M}.tspred AS m WHERE t.ts > LATEST", {'int1': {'tbl1'}}, [('mindsdb', ['tspred'])]),
@@ -138,10 +148,14 @@ def leaf(name, bits_a, bits_b, bits_m, as_dicts, legacy_meta):
     api = 'apidb' in tmpl
     ts = 'tspred' in tmpl
     kw = PL.catalog(as_dicts=as_dicts, legacy_meta=legacy_meta, api=api, ts=ts)
+    ckw = PL.catalog(api=api, ts=ts)
+    if not isinstance(name, int) and len(SK[name]) > 4:
+        kw.update(SK[name][4])
+        ckw.update(SK[name][4])
     sql = text(name, bits_a, bits_b, bits_m)
     canon_sql = text(name, (), (), ())
     plan, err = plan_or_error(sql, kw)
-    canon, cerr = plan_or_error(canon_sql, PL.catalog(api=api, ts=ts))
+    canon, cerr = plan_or_error(canon_sql, ckw)
     p09, p10 = [], []
     info = {'sql': sql, 'catalog_form': {'as_dicts': as_dicts, 'legacy_meta': legacy_meta}}
     if err and err.startswith('INTERNAL'):
@@ -156,7 +170,7 @@ def leaf(name, bits_a, bits_b, bits_m, as_dicts, legacy_meta):
     # ---- C09
     p09 += PL.wellformed(plan)
     # the last step produces the answer: every table / model the answer depends on is read by the steps the last step is computed from
-    need = SK[name][3] if (not isinstance(name, int) and len(SK[name]) > 3) else exp_fetch
+    need = SK[name][3] if (not isinstance(name, int) and len(SK[name]) > 3 and SK[name][3] is not None) else exp_fetch
     src_tabs, src_preds = PL.answer_sources(plan)
     for integ, tabs in need.items():
         missing = sorted(t for t in tabs if t not in src_tabs.get(integ, set()))
@@ -201,7 +215,7 @@ def leaf(name, bits_a, bits_b, bits_m, as_dicts, legacy_meta):
         p10.append('model steps %s, expected %s' % (got_pred, sorted(exp_pred)))
     for f in PL.fetches(plan):
         for t in PL.tables_of(f.query):
-            if str(t.parts[-1]).lower() in ('pred', 'pred2', 'tspred'):
+            if str(t.parts[-1]).lower() in ('pred', 'pred2', 'tspred') and str(t.parts[-1]).lower() not in exp_fetch.get(f.integration, set()):
                 p10.append('model %s sent to integration %s' % (t, f.integration))
     return p09, p10, info
 
